@@ -33,36 +33,50 @@ RUN_ENV = {
 }
 
 
+# flags added to every compiler invocation of the current work item (language level ...)
+EXTRA_FLAGS: List[str] = []
+
+
 def tools_available() -> bool:
     return bool(shutil.which('g++')) and bool(shutil.which('clang++-14'))
+
+
+def _b(text):
+    """Paths and arguments as UTF-8 bytes: file names the library hands back may hold characters
+    the interpreter's file system encoding cannot express (an ASCII locale, see
+    vlib.surroundings), and that is the harness's problem, not the library's."""
+    return text.encode('utf-8') if isinstance(text, str) else text
 
 
 def write_files(directory: str, files: Dict[str, str]):
     os.makedirs(directory, exist_ok=True)
     for name, text in files.items():
-        with open(os.path.join(directory, name), 'w', encoding='utf-8', newline='') as fh:
+        with open(_b(os.path.join(directory, name)), 'w', encoding='utf-8', newline='') as fh:
             fh.write(text)
 
 
 def compile_link(directory: str, sources: List[str], exe: str, flavor: str = 'plain',
                  extra: Optional[List[str]] = None, timeout: int = 300) -> Tuple[int, str]:
-    cmd = FLAVORS[flavor] + (extra or []) + ['-I', directory, '-I', MOCK] + sources + ['-o', exe]
+    cmd = FLAVORS[flavor] + EXTRA_FLAGS + (extra or []) + ['-I', directory, '-I', MOCK] + sources + \
+        ['-o', exe]
     try:
-        proc = subprocess.run(cmd, cwd=directory, capture_output=True, text=True, timeout=timeout)
+        proc = subprocess.run([_b(c) for c in cmd], cwd=directory, capture_output=True,
+                              timeout=timeout)
     except subprocess.TimeoutExpired:
         return -9, 'compiler watchdog'
-    return proc.returncode, proc.stderr
+    return proc.returncode, proc.stderr.decode('utf-8', 'replace')
 
 
 def syntax_only(directory: str, source: str, flavor: str = 'plain',
                 extra: Optional[List[str]] = None, timeout: int = 300) -> Tuple[int, str]:
-    cmd = FLAVORS[flavor] + ['-fsyntax-only'] + (extra or []) + ['-I', directory, '-I', MOCK,
+    cmd = FLAVORS[flavor] + ['-fsyntax-only'] + EXTRA_FLAGS + (extra or []) + ['-I', directory, '-I', MOCK,
                                                                  source]
     try:
-        proc = subprocess.run(cmd, cwd=directory, capture_output=True, text=True, timeout=timeout)
+        proc = subprocess.run([_b(c) for c in cmd], cwd=directory, capture_output=True,
+                              timeout=timeout)
     except subprocess.TimeoutExpired:
         return -9, 'compiler watchdog'
-    return proc.returncode, proc.stderr
+    return proc.returncode, proc.stderr.decode('utf-8', 'replace')
 
 
 def run_script(directory: str, exe: str, script: str, flavor: str = 'plain', tag: str = 'run',
